@@ -44,7 +44,7 @@ pub fn bin_sequences(wsize: usize, msize: usize, in_path: &str, out_path: &str, 
                         #[cfg(feature = "verif")]
                         ktio::verif::point("min.taken", record.n);
                         let mgen = if wsize == 0 {
-                            MinimiserGenerator::new(&record.seq, record.seq.len(), msize)
+                            MinimiserGenerator::new(&record.seq, record.seq.len().max(msize), msize)
                         } else {
                             MinimiserGenerator::new(&record.seq, wsize, msize)
                         };
@@ -123,7 +123,7 @@ pub fn seq_to_min(wsize: usize, msize: usize, in_path: &str, out_path: &str, thr
                         #[cfg(feature = "verif")]
                         ktio::verif::point("min.taken", record.n);
                         let mgen = if wsize == 0 {
-                            MinimiserGenerator::new(&record.seq, record.seq.len(), msize)
+                            MinimiserGenerator::new(&record.seq, record.seq.len().max(msize), msize)
                         } else {
                             MinimiserGenerator::new(&record.seq, wsize, msize)
                         };
